@@ -1,12 +1,109 @@
 (* Executable checker for C02: collection cases (collector model vs. the real collector) and
    forced-collection schedule cases, whose verdict (heap audit after every collection, outcome and
-   globals equal to the run without forced collections) is computed by the harness. *)
+   globals equal to the run without forced collections) is computed by the harness.
+
+   Allocation-point cases (AllocSegCase): ties VmAllocPoints.alloc_points - the hand transcription of where each
+   instruction of the VM calls the allocator - to the crate.  The harness (harness/src/c02.rs, alloc_segments) runs a
+   compiled straight-line program whose instructions of interest are separated by calls of the native `log1` (the
+   mark), records every call of CaoLangAllocator::alloc (verif-hooks allocation events) and attributes the calls to
+   the segment between two marks.  An observed call is classified from its layout alone: 0 = AObject (size and
+   alignment of a CaoLangObject header), 1 = ASecond (a character buffer - alignment 4 - or a hash part of
+   capacity 8, the one init_table creates), 2 = AGrow (a hash part of a larger capacity).  The checker runs Vm.v
+   over the same program, collects `map ap_kind (alloc_points ...)` of every instruction it dispatches, cut at the
+   same marks (a CallNative of `log1`), and compares per segment.
+   AGrow points are CONDITIONAL (the model of a table has no capacity): the comparison is "equal after removing
+   AGrow points that did not fire" - every observed call must be matched, in order, by a point of the same kind,
+   every AObject / ASecond point must be observed, an AGrow point may be skipped.  That the AGrow points fire at the
+   right entries is checked separately and independently of the model by [grow_sizes_ok]: the sizes of the observed
+   hash parts of ONE table filled by a program (stream `alloc_points.grow`) are 40 * 8, 40 * 12, 40 * 18, ... and
+   the growth happens in the segments of the 6th, 9th, 13th ... new key (count + 1 > 0.7 * capacity).
+   Codes: 1 = the sequences of a segment differ / the number of segments differs, 2 = the growth steps are not at the
+   expected entries, 3 = the model does not run the program to Exit (error, abort, out of budget). *)
 From Cao Require Export C05Check.
+From Cao Require Import Bits Vm VmFloat VmGcRoots VmAllocPoints.
 Local Open Scope N_scope.
 
 Inductive c02case :=
 | GcCase2 (objs : list (N * N * list N)) (roots : list N) (after : list (N * N))
-| SchedCase (prog nalloc : N) (forced : option (list N)) (same audits_ok final_ok : bool).
+| SchedCase (prog nalloc : N) (forced : option (list N)) (same audits_ok final_ok : bool)
+| AllocSegCase (P : Vm.program) (budget : N) (segs : list (list (N * N)))
+    (* per segment the observed calls of alloc in order: (kind 0/1/2, size) *)
+| GrowCase (entries : list (list (N * N))).
+    (* one table: per inserted NEW key (in order, the first is the 1st entry) the observed calls of alloc *)
+
+Definition approg (code data : list N) (labels ids : list (N * N)) (names : list (N * list N))
+           (trace : list (N * N)) : Vm.program := Vm.mkProgram code data labels ids names trace.
+
+Definition kind_code (k : akind) : N := match k with AObject => 0 | ASecond => 1 | AGrow => 2 end.
+
+(* the mark: CallNative of the menu native log1 (no allocation point, no effect on the heap) *)
+Definition is_mark (P : Vm.program) (ip0 : N) : bool :=
+  match nth (N.to_nat ip0) (Vm.p_code P) 255 with
+  | 4 => match read_le (Vm.p_code P) (ip0 + 1) 4 with
+         | Some h => h =? handle_of_bytes Vm.name_log1
+         | None => false
+         end
+  | _ => false
+  end.
+
+(* the dispatch loop of Vm.loop (same bookkeeping, same [step]) that also collects the kinds of the allocation points
+   of every instruction, cut at the marks; None = the run does not end with Exit *)
+Fixpoint seg_loop (P : Vm.program) (fuel : nat) (ip : N) (s : Vm.state) (cur : list N) (acc : list (list N))
+  : option (list (list N)) :=
+  if Vm.code_len P <=? ip then None
+  else
+    match fuel with
+    | O => None
+    | S f =>
+        let s1 := Vm.tick (Vm.set_rem s (N.pred (Vm.st_rem s))) in
+        let pts := map (fun p => kind_code (ap_kind p)) (alloc_points flocq_ops P ip s1) in
+        match Vm.step flocq_ops Vm.Debug P Vm.no_reenter ip s1 with
+        | Vm.SNext ip' s' =>
+            if is_mark P ip then seg_loop P f ip' s' [] (acc ++ [cur ++ pts])
+            else seg_loop P f ip' s' (cur ++ pts) acc
+        | Vm.SExit _ => Some (acc ++ [cur ++ pts])
+        | _ => None
+        end
+    end.
+
+Definition model_segments (P : Vm.program) (budget : N) : option (list (list N)) :=
+  match Vm.push_frame Vm.fresh_state (Vm.mkFrame 0 0 0 None) with
+  | None => None
+  | Some s1 => seg_loop P (N.to_nat budget) 0 (Vm.set_rem s1 (budget + 1)) [] []
+  end.
+
+(* equal after removing AGrow points (code 2) that did not fire *)
+Fixpoint kinds_match (model obs : list N) : bool :=
+  match model with
+  | [] => match obs with [] => true | _ => false end
+  | k :: m =>
+      match obs with
+      | o :: os => if k =? o then kinds_match m os else (k =? 2) && kinds_match m obs
+      | [] => (k =? 2) && kinds_match m []
+      end
+  end.
+
+Fixpoint segs_match (model obs : list (list N)) : bool :=
+  match model, obs with
+  | [], [] => true
+  | m :: mr, o :: or => kinds_match m o && segs_match mr or
+  | _, _ => false
+  end.
+
+(* growth of one table, independent of Vm.v: capacity 8, then (cap * 3) / 2 whenever count + 1 > 0.7 * cap, i.e.
+   10 * (count + 1) > 7 * cap; a hash part of capacity c is one buffer of 40 c bytes (u64 hash + two 16 byte values) *)
+Fixpoint grow_ok (cap count : N) (entries : list (list (N * N))) : bool :=
+  match entries with
+  | [] => true
+  | e :: r =>
+      if 7 * cap <? 10 * (count + 1) then
+        let cap' := (N.max cap 2 * 3) / 2 in
+        match e with
+        | [(2, sz)] => (sz =? 40 * cap') && grow_ok cap' (count + 1) r
+        | _ => false
+        end
+      else match e with [] => grow_ok cap (count + 1) r | _ => false end
+  end.
 
 Notation GcCase := GcCase2.
 
@@ -14,6 +111,12 @@ Definition check1 (c : c02case) : list N :=
   match c with
   | GcCase2 objs roots after => check_gc objs roots after
   | SchedCase _ _ _ same audits_ok final_ok => if same && audits_ok && final_ok then [] else [2]
+  | AllocSegCase P budget segs =>
+      match model_segments P budget with
+      | None => [3]
+      | Some m => if segs_match m (map (map fst) segs) then [] else [1]
+      end
+  | GrowCase entries => if grow_ok 8 0 entries then [] else [2]
   end.
 
 Definition check_all := CheckUtil.check_all check1.
